@@ -42,7 +42,7 @@ SPEC = {
     "components_real": ["fakesnow/* incl. transforms_merge", "sqlglot", "duckdb engine (in-memory)"],
     "components_stubbed": ["caller threads (statement-level order)"],
     "assumptions": ["statement-level atomicity here; torn MERGE under concurrency / kills is covered by C19 / C18"],
-    "mandatory_probes": {"any": ["merge_ok", "cond_on_target", "cond_on_source", "dup_target_keys", "null_key", "subquery_source", "merge_in_rolled_back_txn", "empty_target", "three_clauses", "compound_condition"]},
+    "mandatory_probes": {"any": ["merge_ok", "cond_on_target", "cond_on_source", "dup_target_keys", "null_key", "subquery_source", "merge_in_rolled_back_txn", "empty_target", "three_clauses", "compound_condition", "failing_merge", "failing_merge_in_txn"]},
 }
 
 HAZARDS = ["target_cond_dup_keys", "partial_failure", "helper_visible", "decimal_counts", "target_alias", "null_counts"]
@@ -233,6 +233,12 @@ def gen(rng: Any, prop: str, tier: str) -> dict[str, Any]:
         if in_txn:
             ops.append({"s": "s0", "k": "exec", "sql": "BEGIN", "tag": "begin"})
         ops.append({"s": "s0", "k": "exec", "sql": render_merge(rng, m, hz), "tag": "merge", "merge": m, "source_rows": srows})
+        if rng.random() < 0.25:
+            # a MERGE that fails because of what it refers to: it must change nothing, also inside the open transaction
+            bad = rng.choice(["MERGE INTO TGT USING NO_SUCH_SRC s ON TGT.K = s.K WHEN MATCHED THEN DELETE",
+                              f"MERGE INTO TGT USING {sname} s ON TGT.K = s.NOPE WHEN MATCHED THEN UPDATE SET V = s.V",
+                              f"MERGE INTO NO_SUCH_TGT USING {sname} s ON NO_SUCH_TGT.K = s.K WHEN NOT MATCHED THEN INSERT (K, V) VALUES (s.K, s.V)"])
+            ops.append({"s": "s0", "k": "exec", "sql": bad, "tag": "merge_fail"})
         if hz["helper_visible"]:
             ops.append({"s": "s0", "k": "exec", "sql": "SELECT * FROM merge_candidates", "tag": "helper_probe"})
         if in_txn:
@@ -311,6 +317,15 @@ def run(case: dict[str, Any]) -> dict[str, Any]:
                     (pending if pending is not None and op["s"] == "s0" else tgt).append(list(op["row"]))
                     if pending is not None and op["s"] != "s0":
                         pending.append(list(op["row"]))  # not reachable: generator keeps s1 off TGT while s0's txn is open
+            elif tag == "merge_fail":
+                P("failing_merge" + ("_in_txn" if pending is not None else ""))
+                if out.get("ok"):
+                    violation = v_("should-fail/refers-to-missing", "a MERGE referring to something missing must fail", {"sql": op["sql"]})
+                else:
+                    got_rows = target_rows(world, "s0" if pending is not None else None)
+                    if sorted(norm_rows(got_rows), key=sort_key) != sorted(norm_rows(cur_rows), key=sort_key):
+                        violation = v_("failed-merge-changed-target" + ("/in-transaction" if pending is not None else ""), "a failing MERGE changes nothing (an open transaction keeps its pending writes)",
+                                       {"sql": op["sql"], "error": out, "target_before": cur_rows, "target_after": got_rows})
             elif tag == "helper_probe":
                 if out.get("ok"):
                     violation = v_("helper-visible/merge_candidates", "MERGE leaves no helper object visible in the session", {"probe": op["sql"], "rows": out.get("rows", [])[:3]})
